@@ -667,6 +667,13 @@ func (c *ec2Client) DescribeInstances(in *ec2.DescribeInstancesInput) (*ec2.Desc
 	if err := c.a.inject(ADescribeInst); err != nil {
 		e.Err, e.Injected = "injected", true
 		c.a.J.Add(e)
+		// an injected fault may also be an answer of unexpected shape instead of an error
+		switch c.a.J.LastCode {
+		case "shape:no-reservation":
+			return &ec2.DescribeInstancesOutput{}, nil
+		case "shape:empty-reservation":
+			return &ec2.DescribeInstancesOutput{Reservations: []*ec2.Reservation{{ReservationId: awsapi.String("r-empty")}}}, nil
+		}
 		return nil, err
 	}
 	out := &ec2.DescribeInstancesOutput{}
